@@ -54,6 +54,8 @@ ASSUMPTIONS = [
     'float32 input is held to float32 resolution only (64 eps32 relative, float32 coordinate ulps, sqrt(eps32) near 180 deg)',
     'memory layouts (big-endian, float32, strided, Fortran order, read-only) and 2-D coordinate shapes must give the same '
     'element-wise answers as plain 1-D native float64 arrays',
+    'x_to_angles is also fed the exact unit axis vectors +-x, +-y, +-z (not only outputs of angles_to_x, whose zeros are ~1e-16); '
+    'non-unit vectors are outside the property (x_to_angles divides z by the squared norm, which is 1 for unit vectors only)',
     'nothing is claimed between lattice points',
 ]
 
@@ -646,6 +648,46 @@ def angles_check(latitude, A, layout=None):
     return out
 
 
+AXES = [(1.0, 0.0, 0.0), (-1.0, 0.0, 0.0), (0.0, 1.0, 0.0), (0.0, -1.0, 0.0), (0.0, 0.0, 1.0), (0.0, 0.0, -1.0)]
+AXIS_SCALES = [1.0]     # unit vectors only: the property (and the docstring) speak of unit vectors; non-unit input is out of scope
+
+
+def axis_vectors():
+    """Exact axis vectors (not outputs of angles_to_x, whose zeros are ~1e-16) and scaled copies: (vector, axis, scale)."""
+    return [([sc * c for c in ax], ax, sc) for sc in AXIS_SCALES for ax in AXES]
+
+
+def axis_check(latitude, X):
+    """x_to_angles fed directly with exact (possibly scaled) axis vectors: the angles must name the axis direction and
+    angles_to_x must map them back onto the unit axis.  -> list of (sig, failing indices, msg)."""
+    import pydl.pydlutils.mangle as mng
+    X = np.asarray(X, dtype=np.float64)
+    lt = ':latitude=%s' % latitude
+    try:
+        B = values_of(mng.x_to_angles(X.copy(), latitude=latitude))
+        X2 = values_of(mng.angles_to_x(B.copy(), latitude=latitude))
+    except Exception as e:  # noqa: BLE001
+        return [('x_to_angles:exact-axis-vector:exception:%s%s' % (type(e).__name__, lt), np.array([0]), repr(e))]
+    if B.shape != (len(X), 2):
+        return [('x_to_angles:exact-axis-vector:result-shape' + lt, np.array([0]), str(B.shape))]
+    nrm = np.sqrt((X ** 2).sum(axis=1))
+    U = X / nrm[:, None]                                  # exact for axis vectors
+    unit = nrm == 1.0
+    latB = B[:, 1] if latitude else 90.0 - B[:, 1]
+    d = sep(U.astype(LD), vec(B[:, 0], latB)).astype(np.float64)
+    latU = np.degrees(np.arcsin(U[:, 2]))
+    tol = 5 * FLOOR + cond(latU)
+    bad = ~(d <= tol) | ~(np.sqrt(((X2 - U) ** 2).sum(axis=1)) <= tol)
+    out = []
+    for name, m in (('unit', bad & unit), ('scaled', bad & ~unit)):
+        if m.any():
+            k = int(np.nonzero(m)[0][0])
+            out.append(('x_to_angles:exact-axis-vector:%s%s' % (name, lt), np.nonzero(m)[0],
+                        'vector %s -> angles %s (direction off by %.6g deg), back to %s'
+                        % (X[k].tolist(), B[k].tolist(), np.degrees(d[k]), X2[k].tolist())))
+    return out
+
+
 def angle_lattice(latitude, T):
     nphi = 72 if T else 24
     nth = 37 if T else 13
@@ -1140,6 +1182,14 @@ def small_angle_sets(latitude, T):
 
 def run_angles(acc, task):
     lat = task['latitude']
+    AV = axis_vectors()
+    sets = [[i] for i in range(len(AV))] + [list(range(len(AV)))] + [[5, 4], [4, 5, 0], [1, 3, 5, 0, 2]]
+    for si, idx in enumerate(sets):
+        Xs = np.array([AV[i][0] for i in idx], dtype=np.float64)
+        res = axis_check(lat, Xs)
+        acc.case(('axis', lat, si), True, 'ok:x_to_angles:axis-vectors:%d' % len(idx) if not res else 'bad:' + res[0][0])
+        for sig, _i, msg in res:
+            acc.violation(sig, {'layer': 'axis', 'latitude': lat, 'x': Xs.tolist()}, msg)
     for n, st, S in small_angle_sets(lat, task['T']):
         res = angles_check(lat, S)
         acc.case(('angles-small', lat, n, st), True, 'ok:angles:%d-points:latitude=%s' % (n, lat) if not res
@@ -1240,6 +1290,8 @@ def replay(case):
         return [(s, m) for s, _k, _i, m in res]
     if layer == 'circle':
         return [(s, m) for s, _k, _i, m in circle_check(case['stripe'], case['route'], case['t'])]
+    if layer == 'axis':
+        return [(sg, m) for sg, _i, m in axis_check(case['latitude'], case['x'])]
     if layer == 'angles':
         suffix = ':%d-points' % case['npoints'] if 'npoints' in case else ''
         return [(s + suffix, m) for s, _i, m in angles_check(case['latitude'], np.array(case['a'], dtype=np.float64),
